@@ -59,20 +59,35 @@ Proof.
   { unfold ret. by intros [= <- <-]. }
   case_decide as Hd; cycle 1.
   { unfold raise. by intros [= <- <-]. }
-  cbn [bind modify].
+  cbn [bind get modify].
   set (s2 := s1 <| rctx := rctx s |> <| last_len := None |>).
   destruct (reorder None s2) as [r3 s3] eqn:E3.
   destruct (nt_reorder None s2 r3 s3 Ht1 E3) as [Ht3 Hr3].
+  rewrite (bind_ok _ _ _ _ _ (catch_run _ _ _ _ E3)).
   destruct r3 as [[]|e3]; cycle 1.
-  { rewrite (bind_err _ _ _ _ _ E3). intros [= <- <-]. split; [done|].
+  { cbn [bind modify raise]. intros [= <- <-]. split; [done|].
     intros [= ->]. by apply Hr3. }
-  rewrite (bind_ok _ _ _ _ _ E3). cbn [bind get modify].
+  cbn [bind ret get modify].
   unfold bind at 1, catch at 1.
   destruct (func (s3 <| rctx := true |>)) as [r4 s4] eqn:E4.
   assert (Ht3' : tape (s3 <| rctx := true |>) = []) by done.
   destruct (Hf _ _ _ Ht3' E4) as [Ht4 Hr4].
   cbn [bind modify]. destruct r4 as [a|e4]; cbn [reraise]; unfold ret, raise;
     by intros [= <- <-].
+Qed.
+
+(** the error path of the sifting pass, exactly (dd 854af5f): whatever
+    [reorder(bdd)] raises is re-raised with the threshold put back *)
+Lemma try_to_reorder_sift_error {A} (func : MS A) s s1 e0 s3 :
+  rctx s = false →
+  func (s <| rctx := true |>) = (Err ENeedsReordering, s1) →
+  reorder None (s1 <| rctx := false |> <| last_len := None |>) = (Err e0, s3) →
+  try_to_reorder func s = (Err e0, s3 <| last_len := last_len s1 |>).
+Proof.
+  intros Hc E1 E3. unfold try_to_reorder. cbn [bind get modify].
+  unfold bind at 1, catch at 1. rewrite E1. cbn [bind modify]. rewrite Hc.
+  rewrite decide_True by done. cbn [bind get modify].
+  by rewrite (bind_ok _ _ _ _ _ (catch_run _ _ _ _ E3)).
 Qed.
 
 Lemma nt_ite g u v : nt (ite g u v).
@@ -175,16 +190,16 @@ Qed.
 (** ** 2. The decorator without premise and without the oracle alternative *)
 Theorem try_to_reorder_correct_notape {A} (func : MS A) Pre Post s L r s' :
   op_spec func (heldn L) Pre Post → nt func →
-  Inv s → Counts s L → Pre s → rctx s = false → tape s = [] →
+  Inv s → Counts s L → Pre s → rctx s = false → tape s = [] → max_nodes s = None →
   try_to_reorder func s = (r, s') →
   ∃ a, r = Ok a ∧ Inv s' ∧ Counts s' L ∧ rctx s' = false ∧ tape s' = [] ∧
        (last_len s = None → last_len s' = None) ∧
        (is_Some (last_len s) → is_Some (last_len s')) ∧
        keeps (heldn L) s s' ∧ Post s a s'.
 Proof.
-  intros Hop Hnt HI HC HP Hc Ht Hrun.
+  intros Hop Hnt HI HC HP Hc Ht Hmx Hrun.
   destruct (nt_try_to_reorder func Hnt s r s' Ht Hrun) as [Ht' Hne].
-  destruct (try_to_reorder_correct func Pre Post s L r s' sifting_ok'_holds Hop HI HC HP Hc Hrun)
+  destruct (try_to_reorder_correct func Pre Post s L r s' sifting_ok'_holds Hop HI HC HP Hc Hmx Hrun)
     as [->|(a&->&?&?&?&?&?&?&?)]; [done|].
   exists a. by split_and!.
 Qed.
@@ -199,7 +214,7 @@ Qed.
 
 Section notape.
 Context (s : st) (L : positive → nat) (HI : Inv s) (HC : Counts s L)
-        (Hc : rctx s = false) (Ht : tape s = []).
+        (Hc : rctx s = false) (Ht : tape s = []) (Hmx : max_nodes s = None).
 
 Theorem ite_notape g u v r s' :
   valid s g → valid s u → valid s v →
@@ -647,17 +662,33 @@ Proof.
   { destruct (last_len s) as [l|] eqn:El; [by eexists|]. exfalso.
     assert (El0 : last_len s0 = None) by done.
     by destruct (Hn s0 _ s1 El0 E1) as [_ ?]. }
-  cbn [bind modify].
+  cbn [bind get modify].
   set (s2 := s1 <| rctx := false |> <| last_len := None |>).
   assert (Hsame2 : same_tables s1 s2) by (by repeat split).
   assert (HI2 : Inv s2) by (by apply (Inv_same s1)).
   assert (HC2 : Counts s2 L) by (by apply (Counts_same s1)).
   assert (Hk2 : keeps (heldn L) s s2) by (by apply keeps_extends).
   destruct (reorder None s2) as [r3 s3] eqn:E3.
+  rewrite (bind_ok _ _ _ _ _ (catch_run _ _ _ _ E3)).
+  assert (Ht3 : tape s3 = []).
+  { assert (tape s2 = []) as Ht2.
+    { destruct Hf1 as (_&_&_&E&_). change (tape s2) with (tape s1). by rewrite E. }
+    by destruct (nt_reorder None s2 r3 s3 Ht2 E3). }
   destruct (sifting_ok'_holds s2 L r3 s3 HI2 HC2 eq_refl E3)
-    as [->|(->&HI3&HC3&Hll3&Hr3&Hk3)].
-  { rewrite (bind_err _ _ _ _ _ E3). intros [= <- <-]. done. }
-  rewrite (bind_ok _ _ _ _ _ E3). cbn [bind get modify].
+    as [->|(Hr3&HI3&HC3&Hll3&Hc3&Hmx3&Hk3)].
+  { cbn [bind modify raise]. intros [= <- <-]. done. }
+  destruct Hr3 as [->|[-> _]]; cycle 1.
+  { (* the table is full: sifting stops between two swaps; the threshold is put back *)
+    cbn [bind modify raise]. intros [= <- <-].
+    assert (HsameR : same_tables s3 (s3 <| last_len := last_len (s1 <| rctx := false |>) |>))
+      by (by repeat split).
+    split; [by apply (Inv_same s3)|split; [by apply (Counts_same s3)|]].
+    split; [cbn; by rewrite Hc3|split; [done|]].
+    split; [intros E; destruct Hon as [l Hl]; congruence|].
+    split; [intros _; cbn; by rewrite Hll1|].
+    split; [|done]. apply (keeps_same_r _ s s3); [done|].
+    by apply (keeps_trans (heldn L) (heldn L) s s2 s3). }
+  cbn [bind ret get modify].
   unfold bind at 1, catch at 1.
   set (s3' := s3 <| rctx := true |>).
   assert (HI3' : Inv s3') by (by apply Inv_rctx).
@@ -679,7 +710,7 @@ Proof.
     by (intros e ->; destruct r4; cbn [reraise] in Hrun; [done|by injection Hrun as ->]).
   subst s'.
   split; [by apply (Inv_same s4)|split; [by apply (Counts_same s4)|]].
-  split; [cbn; by rewrite Hr3|split; [done|]].
+  split; [cbn; by rewrite Hc3|split; [done|]].
   split; [intros E; destruct Hon as [l Hl]; congruence|].
   split; [intros _; by eexists|].
   split.
@@ -797,7 +828,7 @@ Definition allowedD (o : op) : bool :=
   | OIncref _ | ODecref _ | ORef _ | OGc _
   | OCofactor _ _ _ | OQuantify _ _ _ _ | OCompose _ _ | ORename _ _
   | OLet _ _ | OCube _ | OSupport _ | OIsEssential _ _
-  | OConfigure _ | OSetLastLen _ | OSetTrig _ => true
+  | OConfigure _ | OSetLastLen _ | OSetTrig _ | OSetMaxNodes _ => true
   | _ => false
   end.
 
@@ -852,7 +883,7 @@ Proof.
   destruct o; try discriminate Ha; try discriminate Hnew; cbn [run_op] in H.
   - (* OAddVar *)
     apply bind_ret_inv in H as (r0&H&Hr).
-    destruct (add_var_total s v l r0 s' HI H) as (HI'&(_&E1&_&E2)&HC&Hden&Hr0).
+    destruct (add_var_total s v l r0 s' HI H) as (HI'&(_&E1&_&E2&_)&HC&Hden&Hr0).
     { intros l0 -> Hv. by apply Hgd. }
     apply dout_den; try done; [congruence|congruence|exists L; by apply HC|..].
     + destruct r0; [by rewrite Hr|]. destruct Hr0 as [-> _]. by rewrite Hr.
@@ -860,7 +891,7 @@ Proof.
     + intros u Hu. destruct (Hden u Hu) as (?&_&?). done.
   - (* ODeclare *)
     apply bind_ret_inv in H as (r0&H&Hr).
-    destruct (declare_total s vs r0 s' HI H) as (->&HI'&(_&E1&_&E2)&HC&Hden).
+    destruct (declare_total s vs r0 s' HI H) as (->&HI'&(_&E1&_&E2&_)&HC&Hden).
     apply dout_den; try done; [congruence|congruence|exists L; by apply HC|by rewrite Hr..|].
     intros u Hu. destruct (Hden u Hu) as (?&_&?). done.
   - apply (fun Hm => dsafe_out _ s r s' Hm HG H). dsafe. apply dsafe_var.
@@ -868,14 +899,14 @@ Proof.
   - apply (fun Hm => dsafe_out _ s r s' Hm HG H). dsafe. apply dsafe_apply.
   - (* OIncref *)
     apply bind_ret_inv in H as (r0&H&Hr).
-    destruct (incref_total s u r0 s' HI H) as (HI'&He&(_&E1&_&E2)&Hv&Hn).
+    destruct (incref_total s u r0 s' HI H) as (HI'&He&(_&E1&_&E2&_)&Hv&Hn).
     destruct (decide (valid s u)) as [Hu|Hu].
     + destruct (Hv Hu) as [-> HC]. apply dout_extends; try done; [|by rewrite Hr..].
       eexists. by apply HC.
     + destruct (Hn Hu) as [-> ->]. apply dout_extends; try done; [by exists L|by rewrite Hr..].
   - (* ODecref *)
     apply bind_ret_inv in H as (r0&H&Hr).
-    destruct (decref_total s u r0 s' HI H) as (HI'&He&(_&E1&_&E2)&Hv&Hn).
+    destruct (decref_total s u r0 s' HI H) as (HI'&He&(_&E1&_&E2&_)&Hv&Hn).
     destruct (decide (valid s u)) as [Hu|Hu].
     + destruct (Hv Hu) as [-> HC]. apply dout_extends; try done; [|by rewrite Hr..].
       eexists. apply HC; [done|]. cbn [caller_ok] in Hgd. specialize (Hgd Hu).
@@ -886,7 +917,7 @@ Proof.
   - (* OGc *)
     apply bind_ret_inv in H as (r0&H&Hr).
     destruct (collect_garbage_total roots s L r0 s' HI HL H)
-      as (HI'&HC'&Ev&El&(_&E1&_&E2)&Hsub&Hcase).
+      as (HI'&HC'&Ev&El&(_&E1&_&E2&_)&Hsub&Hcase).
     assert (Hr' : r ≠ Err ENeedsReordering ∧ r ≠ Err EOracle).
     { destruct Hcase as [(->&_)|(->&_)]; by rewrite Hr. }
     destruct Hr' as [Hr1 Hr2].
@@ -912,6 +943,11 @@ Proof.
     + apply (Inv_same s); [by repeat split|done].
     + exists L. by apply (Counts_same s).
   - (* OSetTrig *)
+    cbn [bind modify ret] in H. injection H as <- <-.
+    apply dout_extends; try done.
+    + apply (Inv_same s); [by repeat split|done].
+    + exists L. by apply (Counts_same s).
+  - (* OSetMaxNodes *)
     cbn [bind modify ret] in H. injection H as <- <-.
     apply dout_extends; try done.
     + apply (Inv_same s); [by repeat split|done].
